@@ -372,7 +372,11 @@ impl GrandState {
             EnterSubshellOption::ClearInternalDisposition => new_setting,
             EnterSubshellOption::Ignore => Disposition::Ignore,
         };
-        if old_disposition != new_disposition
+        // When the subshell is made to ignore the signal, the disposition is set
+        // even if it is `Ignore` already: the caller may have blocked the signal
+        // before forking (see `BlockSignals::block_sigint_sigquit`) and relies
+        // on this call to unblock it.
+        if (old_disposition != new_disposition || option == EnterSubshellOption::Ignore)
             && let Condition::Signal(signal) = cond
         {
             system.set_disposition(signal, new_disposition).await?;
